@@ -2620,6 +2620,11 @@ class FuncMod(ValueFunc):
         if a.isNull() or b.isNull():
             return NULL
 
+        if a.isNumerical() and b.isNumerical() and b.value == 0:
+            raise CklRuntimeError(
+                ValueString("ERROR"), "divide by zero", pos
+            )
+
         if a.isInt() and b.isInt():
             return ValueInt(a.value % b.value)
 
